@@ -16,8 +16,13 @@
 // the model: crash observation, the coherence laws evaluated on origami's own
 // results (truthiness alike in all contexts, == symmetric, != / !== complements,
 // <=> agrees with < and >, <= is < or ==, >= is > or ==, a < b is b > a, == implies
-// <=> 0, / float, zero divisor is an error) and a Go reference
-// of the documented results (ref.go) on the documented domain.
+// <=> 0, / float, zero divisor is an error), a Go reference
+// of the documented results (ref.go) on the documented domain, and the result
+// kind the language fixes whatever the operands are (. string, comparisons and
+// logical operators bool, <=> int, / float, bit operations and shifts int):
+// checkType on every evaluation of every stream, and the obs cases, where the
+// script itself looks at the result (gettype, is_<kind>, === the documented
+// result, the next operator applied to it).
 package c03
 
 import (
@@ -40,11 +45,12 @@ func fmtInt(n int64) string { return strconv.FormatInt(n, 10) }
 
 // Case is one replayable evaluation.
 type Case struct {
-	Kind string `json:"kind"`           // bin | un | truth | fast | forle
+	Kind string `json:"kind"`           // bin | un | truth | fast | forle | obs
 	Op   string `json:"op"`             // operator name or truthiness context
 	A    V      `json:"a"`              //
-	B    *V     `json:"b,omitempty"`    // right operand (bin, fast)
+	B    *V     `json:"b,omitempty"`    // right operand (bin, fast; obs of a binary operator)
 	Same bool   `json:"same,omitempty"` // bin: both operands are the same variable
+	Form string `json:"form,omitempty"` // obs: how the script itself looks at the result — gettype | is | same | next
 }
 
 func (c Case) Key() string {
@@ -54,6 +60,9 @@ func (c Case) Key() string {
 	}
 	if c.Same {
 		k += " same"
+	}
+	if c.Form != "" {
+		k += " " + c.Form
 	}
 	return k
 }
@@ -78,9 +87,34 @@ func (c Case) Show() string {
 		return "$a " + opByName[c.Op].Sym + " <literal " + c.B.Show() + ">  with $a = " + c.A.Show()
 	case "forle":
 		return "for (; $a <= <literal " + c.B.Show() + ">; )  with $a = " + c.A.Show()
+	case "obs":
+		e := opByName[c.Op].Sym + " " + c.A.Show()
+		if c.B != nil {
+			e = c.A.Show() + " " + opByName[c.Op].Sym + " " + c.B.Show()
+		}
+		switch c.Form {
+		case "gettype":
+			return "gettype(" + e + ")"
+		case "is":
+			return "is_" + isFuncKind(c) + "(" + e + ")"
+		case "same":
+			return "(" + e + ") === <documented result>"
+		}
+		return "(" + e + ") + 1"
 	}
 	return c.Op + "(" + c.A.Show() + ")"
 }
+
+// is_<kind> function applied by the obs form "is"
+func isFuncKind(c Case) string {
+	if ks := expectedKinds(c.Op, c.A); len(ks) == 1 {
+		return kindNames[ks[0]]
+	}
+	return "scalar"
+}
+
+// refBase: evaluation id offset under which an obs case records what its reference value gives
+const refBase = 1 << 20
 
 // script statement for case number i (operand variables a<i>, b<i>)
 func (c Case) stmt(i int, vals *[]V, sb *strings.Builder) {
@@ -89,6 +123,34 @@ func (c Case) stmt(i int, vals *[]V, sb *strings.Builder) {
 	*vals = append(*vals, c.A)
 	sb.WriteString(operandInit(an, len(*vals)-1, c.A))
 	bn := an
+	if c.Kind == "obs" {
+		expr := "(" + unExpr(c.Op, an) + ")"
+		if c.B != nil {
+			*vals = append(*vals, *c.B)
+			bn = "b" + id
+			sb.WriteString(operandInit(bn, len(*vals)-1, *c.B))
+			expr = "(" + binExpr(c.Op, an, bn) + ")"
+		}
+		switch c.Form {
+		case "gettype":
+			sb.WriteString(guarded(i, "gettype("+expr+")"))
+		case "is":
+			sb.WriteString(guarded(i, "is_"+isFuncKind(c)+"("+expr+")"))
+		case "same", "next":
+			// the documented result, handed in as a fresh value
+			if ref, ok := c.refValue(); ok {
+				*vals = append(*vals, ref)
+				sb.WriteString(operandInit("w"+id, len(*vals)-1, ref))
+				if c.Form == "same" {
+					sb.WriteString(guarded(i, expr+" === $w"+id))
+				} else {
+					sb.WriteString(guarded(i, expr+" + 1"))
+					sb.WriteString(guarded(refBase+i, "$w"+id+" + 1"))
+				}
+			}
+		}
+		return
+	}
 	if c.B != nil && !c.Same && c.Kind != "fast" && c.Kind != "forle" {
 		*vals = append(*vals, *c.B)
 		bn = "b" + id
@@ -145,6 +207,7 @@ func evalBatch(e *env, cases []Case) []Out {
 			res[i] = Out{Kind: "none", Msg: o.Kind + ": " + o.Detail}
 		}
 	}
+	e.lastGot = got
 	return res
 }
 
@@ -312,6 +375,8 @@ func (r *runner) process(cases []Case) []Out {
 		}
 		// documented results (Go reference, independent of the model)
 		r.checkExact(cs, o)
+		// the result kind the language fixes whatever the operands are
+		r.checkType(cs, o)
 	}
 	// model
 	if r.m != nil {
@@ -393,6 +458,205 @@ func (r *runner) checkExact(cs Case, o Out) {
 	r.c.Hit("documented-domain")
 	if canonOut(ref, false) != canonOut(o, false) {
 		r.viol("exact:"+cs.Op+":"+cs.classes(), cs.Show()+" gives "+showOut(o)+", documented result "+showOut(ref), cs)
+	}
+}
+
+// checkType: the kind of the result of `. == != === !== < <= > >= <=> && || / & | ^ << >>`, `! ~` and
+// the casts does not depend on the operands — asserted on every evaluation of every stream (all pairs
+// of the pools, mixed kinds, arrays and objects included), on the data.Value the interpreter produced;
+// `- * ** %` and unary `-` yield a number; `.`, the comparison and logical operators never fail.
+// Independent of the model and of the exact-result reference.
+func (r *runner) checkType(cs Case, o Out) {
+	if cs.Kind != "bin" && cs.Kind != "un" && cs.Kind != "fast" {
+		return
+	}
+	want := expectedKinds(cs.Op, cs.A)
+	switch o.Kind {
+	case "val":
+		if want == nil {
+			return
+		}
+		r.c.Hit("oracle:result-type")
+		okk := false
+		for _, k := range want {
+			okk = okk || o.Val.K == k
+		}
+		if !okk {
+			r.viol("result-type:"+cs.Op+":"+cs.classes(), cs.Show()+" gives "+showOut(o)+"; the result of "+opByName[cs.Op].Sym+" is "+kindList(want)+" whatever the operands are", cs)
+		} else if cs.Op == "cmp" && (o.Val.I < -1 || o.Val.I > 1) {
+			r.viol("cmp-range:"+cs.classes(), cs.Show()+" gives "+showOut(o)+", expected -1, 0 or 1", cs)
+		}
+	case "err":
+		if alwaysValue[cs.Op] {
+			r.c.Hit("oracle:always-value")
+			r.viol("not-total:"+cs.Op+":"+cs.classes(), cs.Show()+" gives "+showOut(o)+"; "+opByName[cs.Op].Sym+" is defined on every operand pair", cs)
+		}
+	}
+}
+
+// refValue: the documented result of the operator application an obs case looks at (a non-NaN value)
+func (c Case) refValue() (V, bool) {
+	var ref Out
+	var ok bool
+	if c.B != nil {
+		ref, ok = refBin(c.Op, c.A, *c.B)
+	} else {
+		ref, ok = refUn(c.Op, c.A)
+	}
+	if !ok || ref.Kind != "val" || (ref.Val.K == "f" && math.IsNaN(ref.Val.Float())) {
+		return V{}, false
+	}
+	return ref.Val, true
+}
+
+// obsForms: the obs cases for one operator application
+func obsForms(op string, a V, b *V, full bool) []Case {
+	want := expectedKinds(op, a)
+	var out []Case
+	if want != nil {
+		out = append(out, Case{Kind: "obs", Op: op, A: a, B: b, Form: "gettype"})
+	}
+	if !full {
+		return out
+	}
+	if len(want) == 1 {
+		out = append(out, Case{Kind: "obs", Op: op, A: a, B: b, Form: "is"})
+	}
+	probe := Case{Kind: "obs", Op: op, A: a, B: b}
+	if _, ok := probe.refValue(); ok {
+		out = append(out, Case{Kind: "obs", Op: op, A: a, B: b, Form: "same"}, Case{Kind: "obs", Op: op, A: a, B: b, Form: "next"})
+	}
+	return out
+}
+
+// observe: the result looked at by the SCRIPT (no model, no value capture of the result itself):
+// gettype(EXPR) names the fixed kind, is_<kind>(EXPR) is true, EXPR === <documented result> is true,
+// and the next operator applied to it — EXPR + 1 — gives what it gives on the documented result
+// (`(5 . "") + 1` is "51": a string, not 6).
+func (r *runner) observe(cases []Case) {
+	c := r.c
+	for len(cases) > 0 {
+		n := len(cases)
+		if n > 600 {
+			n = 600
+		}
+		outs := evalBatch(r.e, cases[:n])
+		got := r.e.lastGot
+		for i, cs := range cases[:n] {
+			o := outs[i]
+			c.Eval(cs.Key(), true)
+			c.Hit("obs:" + cs.Form)
+			if r.print {
+				fmt.Printf("  script: %s  (%s)\n", canonOut(o, false), firstLine(o.Msg))
+			}
+			if o.Kind == "crash" {
+				r.viol("crash:"+cs.Op+":"+cs.classes(), "Go panic evaluating "+cs.Show()+": "+firstLine(o.Msg), cs)
+				continue
+			}
+			if o.Kind != "val" {
+				c.Hit("obs:no-value") // the operator application itself failed: judged by the plain stream
+				continue
+			}
+			c.Hit("operands:" + cs.classes())
+			sig := "result-type-script:" + cs.Form + ":" + cs.Op + ":" + cs.classes()
+			switch cs.Form {
+			case "gettype":
+				want := expectedKinds(cs.Op, cs.A)
+				okk := false
+				for _, k := range want {
+					okk = okk || (o.Val.K == "s" && o.Val.Str() == r.e.typeName[k])
+				}
+				if !okk {
+					r.viol(sig, cs.Show()+" is "+o.Val.Show()+"; the result of "+opByName[cs.Op].Sym+" is "+kindList(want)+" whatever the operands are", cs)
+				}
+			case "is", "same":
+				if !(o.Val.K == "b" && o.Val.B) {
+					w := ""
+					if ref, ok := cs.refValue(); ok && cs.Form == "same" {
+						w = " (documented result " + ref.Class() + " " + ref.Show() + ")"
+					}
+					r.viol(sig, cs.Show()+" is "+o.Val.Show()+", expected true"+w, cs)
+				}
+			case "next":
+				ro, ok := got[refBase+i]
+				if !ok {
+					continue
+				}
+				if canonOut(o, false) != canonOut(ro, false) {
+					ref, _ := cs.refValue()
+					r.viol(sig, cs.Show()+" gives "+showOut(o)+" but "+ref.Show()+" + 1 (the documented result of the inner operator) gives "+showOut(ro), cs)
+				}
+			}
+		}
+		cases = cases[n:]
+	}
+}
+
+// observeAll: gettype on every operator with a result kind × vals × vals (+ unary), the other forms
+// on the kind pool
+func (r *runner) observeAll(vals, kinds []V) {
+	var cases []Case
+	add := func(vs []V, full bool) {
+		for i := range vs {
+			a := vs[i]
+			for _, op := range binOps {
+				for j := range vs {
+					b := vs[j]
+					for _, f := range obsForms(op.Name, a, &b, full) {
+						if !full || f.Form != "gettype" { // gettype is covered by the complete pool
+							cases = append(cases, f)
+						}
+					}
+				}
+			}
+			for _, op := range unOps {
+				if !full {
+					cases = append(cases, obsForms(op.Name, a, nil, true)...)
+				}
+			}
+		}
+	}
+	add(vals, false)
+	add(kinds, true)
+	r.observe(cases)
+}
+
+// the harness's result-kind tables are Spec.Ops.fixedKind / alwaysValue / numericResult (driver commands kind, kindun)
+func (r *runner) checkKindTables() {
+	if r.m == nil {
+		return
+	}
+	var reqs, want []string
+	flag := func(b bool) string {
+		if b {
+			return "1"
+		}
+		return "0"
+	}
+	for _, op := range binOps {
+		reqs = append(reqs, "kind\t"+op.Name)
+	}
+	for _, op := range unOps {
+		reqs = append(reqs, "kindun\t"+op.Name)
+	}
+	for _, op := range append(append([]opInfo{}, binOps...), unOps...) {
+		k := "-"
+		if f, ok := fixedKind[op.Name]; ok {
+			k = f
+		}
+		want = append(want, k+" "+flag(alwaysValue[op.Name])+" "+flag(numericResult[op.Name]))
+	}
+	ans, err := r.m.AskBatch(reqs)
+	if err != nil {
+		r.c.Mismatch(nil, "", err.Error(), "model driver failed")
+		r.m = nil
+		return
+	}
+	for i := range reqs {
+		r.c.Hit("kind-table")
+		if ans[i] != want[i] {
+			r.c.Mismatch(map[string]string{"request": reqs[i]}, want[i], ans[i], "result-kind table of the harness vs Spec.Ops.fixedKind / alwaysValue / numericResult")
+		}
 	}
 }
 
@@ -589,7 +853,7 @@ func (r *runner) matrix(vals []V) {
 
 // literal right operands: the fused / literal-child nodes must agree with the plain nodes
 func (r *runner) fastPaths(vals []V) {
-	lits := []V{vi(0), vi(1), vi(-1), vi(5), vi(63), vf(0.5), vs("a"), vb(true), vn()}
+	lits := []V{vi(0), vi(1), vi(-1), vi(5), vi(63), vf(0.5), vs("a"), vs(""), vs("0"), vb(true), vb(false), vn()}
 	var cases, plain []Case
 	for _, a := range vals {
 		if !a.Scalar() && a.K != "a" {
@@ -700,6 +964,17 @@ func (r *runner) random(n int) {
 		}
 	}
 	r.process(batch)
+	// the script's own view of the result kind on random pairs
+	var obs []Case
+	for i := 0; i < n/20; i++ {
+		a, b := randVal(rd), randVal(rd)
+		if rd.Intn(8) == 0 {
+			obs = append(obs, obsForms(vh.Pick(rd, unOps).Name, a, nil, true)...)
+		} else {
+			obs = append(obs, obsForms(vh.Pick(rd, binOps).Name, a, &b, true)...)
+		}
+	}
+	r.observe(obs)
 	// the pairwise laws on random small sets
 	for k := 0; k < n/4000; k++ {
 		var vals []V
@@ -784,13 +1059,15 @@ func Run(c *vh.Ctx) {
 		return
 	}
 
+	r.checkKindTables()
 	r.corpus()
 	pool := boundaryPool()
 	r.matrix(pool)
 	r.fastPaths(pool)
+	r.observeAll(pool, kindPool())
 	c.Res.Exhaustive = true
-	c.Res.ExhaustiveWhat = fmt.Sprintf("all %d binary operators × %d×%d boundary operands (+ the same-variable diagonal), %d unary operators/casts × %d operands, %d truthiness contexts × %d operands, literal-right-operand forms; every non-value outcome re-run outside try",
-		len(binOps), len(pool), len(pool), len(unOps), len(pool), len(truthCtx), len(pool))
+	c.Res.ExhaustiveWhat = fmt.Sprintf("all %d binary operators × %d×%d boundary operands (+ the same-variable diagonal), %d unary operators/casts × %d operands, %d truthiness contexts × %d operands, literal-right-operand forms; every non-value outcome re-run outside try; the result kind fixed by the language (. string, comparisons/logical bool, <=> int, / float, bit operations and shifts int, - * ** %% number) asserted on every one of these evaluations and through gettype() in the script on the same %d×%d pairs, is_<kind>() / === documented result / the next operator (+ 1) on %d×%d kind representatives",
+		len(binOps), len(pool), len(pool), len(unOps), len(pool), len(truthCtx), len(pool), len(pool), len(pool), len(kindPool()), len(kindPool()))
 	r.random(c.N(4000, 400000))
 	if r.m != nil {
 		c.Res.ModelLines = r.m.Lines
@@ -818,6 +1095,10 @@ func (r *runner) corpus() {
 			r.truthLaw([]V{cs.A})
 			continue
 		}
+		if cs.Kind == "obs" {
+			r.observe([]Case{cs})
+			continue
+		}
 		cases = append(cases, cs)
 		if cs.Kind == "bin" && cs.B != nil && !cs.Same {
 			r.matrixLawsOnly(uniqVals([]V{cs.A, *cs.B}))
@@ -835,6 +1116,8 @@ func (r *runner) replay(cs Case) {
 	fmt.Printf("case: %s\n", cs.Show())
 	if cs.Kind == "truth" && cs.Op == "all" {
 		r.truthLaw([]V{cs.A})
+	} else if cs.Kind == "obs" {
+		r.observe([]Case{cs})
 	} else {
 		outs := r.process([]Case{cs})
 		fmt.Printf("  impl : %s  (%s)\n", canonOut(outs[0], false), firstLine(outs[0].Msg))
